@@ -48,6 +48,8 @@ def run(prog, chk):
     chk.rule(strops.check_for, prog, chk, "C03")  # A14.str-ops: how this property's strings are cut up is a reviewed, frozen inventory
     from props import C05 as _C05
     chk.rule(_C05.normalisation_idempotent, prog, chk)  # the only normalisation is blank-line removal of the joined *text*: nothing else (CDATA) goes through it
+    chk.rule(every_line_is_kept, prog, chk)
+    chk.rule(reader_rejects_xml_errors_only, prog, chk)
     chk.obs = [o for o in chk.obs if not (o["rule"] == "A14.class-unique")]
 
 
@@ -343,6 +345,56 @@ def normalisations(prog, chk):
             blr.where(),
             "write_to passes all character data (also of real SVG) through blank_line_remover, which trims trailing blanks of every line that is followed by a newline: character data `one   \\ntwo` becomes `one\\ntwo`",
         )
+
+
+def every_line_is_kept(prog, chk):
+    """the text normaliser of the writer goes through character data line by line; whatever it does *to* a line (the
+    trailing-blank trim is known finding F24), every line it takes off the input ends up in the result: each pass of
+    its loop that cuts a line off passes the `push('\\n')` that terminates it - no `continue`, no counter that skips.
+    A dropped line is character data of a pass-through document that is not in the output"""
+    blr = prog.maybe_body("svgdx::events::OutputList::blank_line_remover")
+    if blr is None:
+        chk.undecided("A16.every-line-kept", "blank_line_remover", "src/events.rs", "the writer's text normaliser is not there under this name")
+        return
+    chk.touch(blr)
+    cuts = blr.call_sites(lambda c: c.path.split("::")[-1] in ("split_at", "split_once", "split_at_checked") and "str" in c.path)
+    pushes = {bb for (bb, t, c) in blr.call_sites(lambda c: c.path in ("std::string::String::push", "std::string::String::push_str"))}
+    n = 0
+    for (cb, ct, cc) in cuts:
+        lp = R.loop_containing(blr, cb)
+        if lp is None:
+            continue
+        n += 1
+        nl = {bb for (bb, t, c) in blr.call_sites(lambda c: c.path == "std::string::String::push") if bb in lp[1]}
+        if not nl:
+            chk.undecided("A16.every-line-kept", "blank_line_remover", blr.where(cb, ct.get("line")), "how a line is terminated in the result (no String::push in the loop) is not read here")
+            continue
+        skip = lp[0] in blr.reach([ct["t"]], avoid=nl) if ct.get("t") is not None else False
+        chk.ob(not skip, "A16.every-line-kept", "blank_line_remover", blr.where(cb, ct.get("line")), "every line cut off the text is written to the result (each such pass of the loop passes push('\\n'))", "a pass of blank_line_remover's loop cuts a line off the text and goes on to the next without writing its line end: lines of character data are dropped (a run of blank lines is shortened) - also in a document that is to pass through as it is")
+    if not n:
+        chk.undecided("A16.every-line-kept", "blank_line_remover", blr.where(), "blank_line_remover does not cut lines off with split_at / split_once in a loop")
+
+
+def reader_rejects_xml_errors_only(prog, chk):
+    """reading the document (InputList::from_reader) fails for what the XML reader reports - a malformed tag, a
+    duplicate attribute, bytes that are not UTF-8 - and for nothing else: it does not run the *element conversion*
+    (SvgElement::try_from, which also unescapes every attribute value and fails on a reference to an entity declared
+    in the DOCTYPE) to decide whether a tag is acceptable.  Such a document is well-formed and passes through"""
+    from sa import errfate
+    b = prog.body("svgdx::events::InputList::from_reader")
+    chk.touch(b)
+    n = 0
+    for s_ in errfate.result_fates(prog, b):
+        if "svgdx::errors::SvgdxError" not in s_.dty or str(s_.fate).startswith("dropped"):
+            continue
+        n += 1
+        conv = "SvgElement" in s_.callee.inst and s_.callee.path.split("::")[-1] in ("try_from", "try_into", "from")
+        key = f"from_reader:{s_.callee.path.split('::')[-1]}"
+        if conv:
+            chk.bad("A16.reader-verdict", key, b.where(s_.bb, s_.line), f"from_reader judges a tag by converting it to an SvgElement ({s_.callee.inst[:90]}) and fails when the conversion does: that also refuses attribute values the XML reader accepts (an entity reference it cannot resolve) - a well-formed document, namespaced <svg> included, is rejected instead of passed through")
+        else:
+            chk.undecided("A16.reader-verdict", key, b.where(s_.bb, s_.line), f"from_reader lets a verdict of {s_.callee.path} ({s_.fate}) decide: whether that refuses only what is not well-formed XML is not read here")
+    chk.ok("A16.reader-verdict", "scan", b.where(), f"{n} library-level verdict(s) used while reading the document")
 
 
 def real_svg_scan(prog, chk):
